@@ -625,85 +625,109 @@ def rule_each(env, shared):
         a, ctx = algo_body, algo_ctx
         if nm == "fold":
             k = "EACH|fold|accumulator"
-            good = False
-            # _0 is moved from acc; acc defs: neutral param and call_mut results
-            d0 = [x for x in a.defs().get(0, []) if not a.blocks[x[0]]["cleanup"]]
-            acc = None
-            # every `return` hands back the same accumulator local (one tail expression, or early returns of it)
-            srcs = set()
-            for x in d0:
-                if x[2] == "assign" and x[3]["k"] == "use" and x[3]["op"]["k"] in ("move", "copy") \
-                        and not x[3]["op"]["place"]["p"]:
-                    srcs.add(x[3]["op"]["place"]["l"])
-                else:
-                    srcs.add(None)
-            if len(srcs) == 1 and None not in srcs:
-                acc = srcs.pop()
-            if acc is not None:
-                defs = a.defs().get(acc, [])
-                init_ok = False
-                calls_ok = True
-                ncalls = 0
-                nfold = 0
-                for (bb, si, kd, pl) in defs:
-                    if a.blocks[bb]["cleanup"]:
-                        continue
-                    if kd == "assign":
-                        v = unref(ev.rvalue(ctx, pl))
-                        if v[0] == "param":
-                            init_ok = True
+            def _acc_threaded(a, ctx, min_calls=2):
+                good = False
+                # _0 is moved from acc; acc defs: neutral param and call_mut results
+                d0 = [x for x in a.defs().get(0, []) if not a.blocks[x[0]]["cleanup"]]
+                acc = None
+                # every `return` hands back the same accumulator local (one tail expression, or early returns of it)
+                srcs = set()
+                n_sfold = 0
+                wr_ = _wrapper_adts(env)
+                for x in d0:
+                    if x[2] == "assign" and x[3]["k"] == "use" and x[3]["op"]["k"] in ("move", "copy") \
+                            and not x[3]["op"]["place"]["p"]:
+                        srcs.add(x[3]["op"]["place"]["l"])
+                    elif x[2] == "call" and a.callee(x[0]) is not None and not a.callee(x[0]).indirect \
+                            and a.callee(x[0]).trait == "std::iter::Iterator" and a.callee(x[0]).name == "fold" \
+                            and adt_of(a.callee(x[0]).self_ty or {}) in wr_ and len(x[3]["args"]) == 3 \
+                            and unref(ev.operand(ctx, x[3]["args"][1]))[0] == "param" and _is_user_fn_operand(a, x[3]["args"][2]):
+                        # `return self.values().fold(neutral, f)`: an arm of its own, threaded by std's fold from `neutral`
+                        n_sfold += 1
+                    else:
+                        srcs.add(None)
+                if not srcs and n_sfold >= 1:
+                    return min_calls <= 1 or n_sfold >= min_calls   # every return is `self.values().fold(neutral, f)`
+                if len(srcs) == 1 and None not in srcs:
+                    acc = srcs.pop()
+                if acc is not None:
+                    defs = a.defs().get(acc, [])
+                    init_ok = False
+                    calls_ok = True
+                    ncalls = 0
+                    nfold = 0
+                    for (bb, si, kd, pl) in defs:
+                        if a.blocks[bb]["cleanup"]:
                             continue
-                        # acc = move d  where d is the destination of a call of the user's function
-                        src = pl["op"]["place"]["l"] if pl["k"] == "use" and pl["op"]["k"] in ("move", "copy") \
-                            and not pl["op"]["place"]["p"] else None
-                        cd = [x for x in a.defs().get(src, []) if x[2] == "call"] if src is not None else []
-                        if len(cd) != 1:
-                            calls_ok = False
-                            continue
-                        bb, si, kd, pl = cd[0]
-                    if kd == "call":
-                        c2 = a.callee(bb)
-                        if c2 is not None and not c2.indirect and c2.trait == "std::iter::Iterator" and c2.name == "fold" \
-                                and len(pl["args"]) == 3 and _is_user_fn_operand(a, pl["args"][2]):
-                            # acc = values.fold(acc, &mut f): the initial value must be the accumulator itself
-                            o1 = pl["args"][1]
-                            l1 = o1["place"]["l"] if o1["k"] in ("move", "copy") and not o1["place"]["p"] else None
-                            srcs = {l1}
-                            for (b3, s3, k3_, rv3) in a.defs().get(l1, []) if l1 is not None else []:
-                                if k3_ == "assign" and rv3["k"] == "use" and rv3["op"]["k"] in ("move", "copy") \
-                                        and not rv3["op"]["place"]["p"]:
-                                    srcs.add(rv3["op"]["place"]["l"])
-                            if acc in srcs:
-                                ncalls += 1
-                                nfold += 1
-                            else:
+                        if kd == "assign":
+                            v = unref(ev.rvalue(ctx, pl))
+                            if v[0] == "param":
+                                init_ok = True
+                                continue
+                            # acc = move d  where d is the destination of a call of the user's function
+                            src = pl["op"]["place"]["l"] if pl["k"] == "use" and pl["op"]["k"] in ("move", "copy") \
+                                and not pl["op"]["place"]["p"] else None
+                            cd = [x for x in a.defs().get(src, []) if x[2] == "call"] if src is not None else []
+                            if len(cd) != 1:
                                 calls_ok = False
-                            continue
-                        if not _user_call(c2):
-                            calls_ok = False
-                            continue
-                        ncalls += 1
-                        tupop = pl["args"][1]
-                        # the tuple's first element must be the accumulator local itself
-                        tl = tupop["place"]["l"] if tupop["k"] in ("move", "copy") else None
-                        firstacc = False
-                        for (b2, s2, k2_, rv2) in a.defs().get(tl, []):
-                            if k2_ == "assign" and rv2["k"] == "aggregate" and rv2["ops"]:
-                                o0 = rv2["ops"][0]
-                                if o0["k"] in ("move", "copy"):
-                                    l0 = o0["place"]["l"]
-                                    # follow one copy
-                                    if l0 == acc:
-                                        firstacc = True
-                                    else:
-                                        for (b3, s3, k3_, rv3) in a.defs().get(l0, []):
-                                            if k3_ == "assign" and rv3["k"] == "use" and rv3["op"]["k"] in ("move", "copy") \
-                                                    and rv3["op"]["place"]["l"] == acc:
-                                                firstacc = True
-                        if not firstacc:
-                            calls_ok = False
-                ucount = len([1 for bi2, t2, c2 in a.calls() if _user_call(c2) and not a.blocks[bi2]["cleanup"]])
-                good = init_ok and calls_ok and ncalls == ucount + nfold and ncalls >= 2
+                                continue
+                            bb, si, kd, pl = cd[0]
+                        if kd == "call":
+                            c2 = a.callee(bb)
+                            if c2 is not None and not c2.indirect and c2.trait == "std::iter::Iterator" and c2.name == "fold" \
+                                    and len(pl["args"]) == 3 and _is_user_fn_operand(a, pl["args"][2]):
+                                # acc = values.fold(acc, &mut f): the initial value must be the accumulator itself
+                                o1 = pl["args"][1]
+                                l1 = o1["place"]["l"] if o1["k"] in ("move", "copy") and not o1["place"]["p"] else None
+                                srcs = {l1}
+                                for (b3, s3, k3_, rv3) in a.defs().get(l1, []) if l1 is not None else []:
+                                    if k3_ == "assign" and rv3["k"] == "use" and rv3["op"]["k"] in ("move", "copy") \
+                                            and not rv3["op"]["place"]["p"]:
+                                        srcs.add(rv3["op"]["place"]["l"])
+                                if acc in srcs:
+                                    ncalls += 1
+                                    nfold += 1
+                                else:
+                                    calls_ok = False
+                                continue
+                            if not _user_call(c2):
+                                calls_ok = False
+                                continue
+                            ncalls += 1
+                            tupop = pl["args"][1]
+                            # the tuple's first element must be the accumulator local itself
+                            tl = tupop["place"]["l"] if tupop["k"] in ("move", "copy") else None
+                            firstacc = False
+                            for (b2, s2, k2_, rv2) in a.defs().get(tl, []):
+                                if k2_ == "assign" and rv2["k"] == "aggregate" and rv2["ops"]:
+                                    o0 = rv2["ops"][0]
+                                    if o0["k"] in ("move", "copy"):
+                                        l0 = o0["place"]["l"]
+                                        # follow one copy
+                                        if l0 == acc:
+                                            firstacc = True
+                                        else:
+                                            for (b3, s3, k3_, rv3) in a.defs().get(l0, []):
+                                                if k3_ == "assign" and rv3["k"] == "use" and rv3["op"]["k"] in ("move", "copy") \
+                                                        and rv3["op"]["place"]["l"] == acc:
+                                                    firstacc = True
+                            if not firstacc:
+                                calls_ok = False
+                    ucount = len([1 for bi2, t2, c2 in a.calls() if _user_call(c2) and not a.blocks[bi2]["cleanup"]])
+                    good = init_ok and calls_ok and ncalls == ucount + nfold and ncalls + n_sfold >= min_calls
+                return good
+
+            # the algorithm may hand each arm to a private helper and return what the helper returns: each helper then threads
+            # its own accumulator from the `neutral` it is given
+            d0_ = [x for x in a.defs().get(0, []) if not a.blocks[x[0]]["cleanup"]]
+            helper_defs = []
+            for x in d0_:
+                hp = [(hb, hctx) for (hb, hctx, _am, (sb, sbb)) in parts if sb is a and sbb == x[0]] if x[2] == "call" else []
+                helper_defs.append(hp[0] if hp else None)
+            if d0_ and all(h is not None for h in helper_defs):
+                good = len(helper_defs) >= 2 and all(_acc_threaded(hb, hctx, 1) for (hb, hctx) in helper_defs)
+            else:
+                good = _acc_threaded(a, ctx)
             out.append(Ob("EACH", k, "ok" if good else "viol", loc,
                           "result = f(result, value) threads one accumulator from `neutral` to the returned value" if good else
                           "fold does not thread a single accumulator (initialised with `neutral`, updated by every call of the "
